@@ -31,7 +31,12 @@ struct Table { std::vector<double> sw, krw, krn, pc; };
 static Table mktable() {            // monotone SWOF-like table: Sw increasing, krw non-decreasing from 0, krn non-increasing to 0, pc non-increasing
     Table t; t.sw.resize(NT); t.krw.resize(NT); t.krn.resize(NT); t.pc.resize(NT);
     for (int i = 0; i < NT; ++i) {
-        t.sw[i] = verif_nondet_real(); t.krw[i] = verif_nondet_real(); t.krn[i] = verif_nondet_real(); t.pc[i] = verif_nondet_real();
+#ifdef SWFIXED
+        { static const double fixed[6] = { 0.125, 0.25, 0.5, 0.625, 0.875, 1.0 }; t.sw[i] = fixed[i]; }     // saturation nodes at fixed non-uniform positions (keeps the inverse maps linear in the symbolic columns)
+#else
+        t.sw[i] = verif_nondet_real();
+#endif
+        t.krw[i] = verif_nondet_real(); t.krn[i] = verif_nondet_real(); t.pc[i] = verif_nondet_real();
         ASSUME(t.sw[i] >= 0 && t.sw[i] <= 1 && t.krw[i] >= 0 && t.krw[i] <= 1 && t.krn[i] >= 0 && t.krn[i] <= 1);
         if (i) ASSUME(t.sw[i] > t.sw[i - 1] && t.krw[i] >= t.krw[i - 1] && t.krn[i] <= t.krn[i - 1] && t.pc[i] <= t.pc[i - 1]);
     }
